@@ -78,6 +78,10 @@ def apply_env(scenario):
     Part of the scenario (key 'env'), so a replay sets it up the same way."""
     import logging
     env = scenario.get('env') if isinstance(scenario, dict) else None
+    if env and env.get('tz'):
+        # the time zone of the simulated machine (POSIX TZ string: no zone database needed)
+        os.environ['TZ'] = env['tz']
+        time.tzset()
     if env and env.get('log') == 'DEBUG':
         root = logging.getLogger()
         for h in list(root.handlers):
@@ -106,8 +110,16 @@ def limit_memory():
         pass
 
 
+#: time zones of the simulated machine: none of the properties mentions local time, so no result may depend on it
+TIME_ZONES = ['AEST-10', 'EST5EDT,M3.2.0,M11.1.0', 'NST3:30NDT,M3.2.0,M11.1.0', 'XKT-13', 'BST0BST-1,M1.1.0,M12.5.0', 'IDLW12']
+
+
 def gen_env(seed):
-    return {'log': 'DEBUG' if seeds.derive(seed, 'env') % 8 == 0 else 'off'}
+    env = {'log': 'DEBUG' if seeds.derive(seed, 'env') % 8 == 0 else 'off'}
+    z = seeds.derive(seed, 'env-tz') % 16
+    if z < len(TIME_ZONES):
+        env['tz'] = TIME_ZONES[z]
+    return env
 
 
 def exec_in_child(execute, scenario, timeout=CHILD_TIMEOUT_S):
@@ -199,6 +211,7 @@ def _run_chunk(args):
         res['seed'] = seed
         res['size'] = len(json.dumps(scenario, default=seeds._default))
         res['env_log'] = scenario.get('env', {}).get('log', 'off')
+        res['env_tz'] = scenario.get('env', {}).get('tz', '')
         res['wall'] = time.perf_counter() - t0
         out.append(res)
     return out
@@ -379,6 +392,7 @@ def main(check, argv=None):
     n_ok = 0
     n_events = 0
     n_debug = 0
+    tz_runs = {}
     sizes = []            # (size, run index, seed, digest)
     digest_map = {} if args.emit_digests else None
     extra_acc = {}
@@ -399,6 +413,8 @@ def main(check, argv=None):
         sizes.append((r['size'], r['i'], r['seed'], r['digest']))
         if r.get('env_log') == 'DEBUG':
             n_debug += 1
+        if r.get('env_tz'):
+            tz_runs[r['env_tz']] = tz_runs.get(r['env_tz'], 0) + 1
         _merge(probes, r['probes'])
         _merge(ops, r['ops'])
         _merge(faults, r['faults'])
@@ -514,6 +530,7 @@ def main(check, argv=None):
                 'faulted_runs': faulted_runs,
                 'harness_errors': n_harness,
                 'runs_with_debug_logging_enabled': n_debug,
+                'runs_per_simulated_time_zone': dict(sorted(tz_runs.items())),
                 'known_findings_seen': sorted(known_seen),
                 'real_components': check.REAL,
                 'stub_components': check.STUB,
